@@ -856,7 +856,8 @@ std::string summarize_document(Document& doc)
             if (f.uid == symbol_t{})
                 continue;
             // the tags found anywhere in the function: local initialisers and every statement of the body
-            Dumper fd{doc, DumpOpts{}};
+            const DumpOpts fopts;  // (the Dumper keeps a reference)
+            Dumper fd{doc, fopts};
             for (auto& v : f.variables)
                 fd.expr(v.init, 0, false);
             if (f.body) {
